@@ -408,8 +408,9 @@ def run_codec(enc, tier, r):
             r.case(nontrivial=bool(data), outcome="ok", transitions=4, validated=4)
             if built[0] != "ok":
                 r.violation("C15/codec/%s/build-raised" % enc, case, repr(built)); continue
-            if lib.decompress(built[1]) != data:
-                r.violation("C15/codec/%s/build-not-codec-output" % enc, case, "decompress(build(v)) != v"); continue
+            dec = tryex(lambda: lib.decompress(built[1]))
+            if dec != ("ok", data):
+                r.violation("C15/codec/%s/build-not-codec-output" % enc, case, "%s.decompress(build(v)) = %r, v = %r" % (enc, dec, data)); continue
             if enc != "gzip":
                 want = lib.compress(data) if (level is None or enc == "lzma") else lib.compress(data, level)
                 if built[1] != want:
@@ -426,7 +427,7 @@ def run_codec(enc, tier, r):
                 r.violation("C15/codec/%s/prefixed-roundtrip" % enc, case, repr(pb)[:200])
             if data:
                 sb = tryex(lambda: st.build(dict(a=data[0], rest=data[1:])))
-                if sb[0] != "ok" or lib.decompress(sb[1]) != data:
+                if sb[0] != "ok" or tryex(lambda: lib.decompress(sb[1])) != ("ok", data):
                     r.violation("C15/codec/%s/struct-inner" % enc, case, repr(sb)[:200])
     r.sample({"encoding": enc, "levels": [None, 1, 9], "data_strings": len(datas)})
 
